@@ -422,3 +422,6 @@ Definition st_ne (v : N) (r : rec) : bool := negb (N.eqb (rst r) v).
 Definition grp_ge (v : N) (r : rec) : bool := N.leb v (rgrp r).
 Definition grp_eq (v : N) (r : rec) : bool := N.eqb (rgrp r) v.
 Definition ftrue (r : rec) : bool := true.
+(* lower bound of a time window on the index attribute (FromTime, inclusive) *)
+Definition exp_ge (v : Z) (r : rec) : bool := Z.leb v (rexp r).
+Definition andp (f g : rec -> bool) (r : rec) : bool := f r && g r.
